@@ -28,6 +28,8 @@ func main() {
 		genC02(*out, *tier, *seed)
 	case "C03":
 		genC03(*out, *tier, *seed)
+	case "C05":
+		genC05(*out, *tier, *seed)
 	case "C07":
 		genC07(*out, *tier, *seed)
 	case "C08":
